@@ -79,6 +79,46 @@ def step (st : St) (line : String) : St × String :=
       if st.c.s.dead then (st, "refused") -- the connection was stopped on this side: Send returns false
       else ({ st with c := st.c.step L (.send t m) }, "ok " ++ toString (packetsOf L t m).length)
     | _, _, _ => (st, "bad-op")
+  | ["send-tagged", t, kind, idx] =>
+    -- scenario `concurrent-small-and-large-same-topic`: kind 0 = one-packet message #idx of sender F,
+    -- kind 1 = three-packet message #idx of sender L (payloads as in harness/c18/interleave.go)
+    match nat? t, nat? kind, nat? idx with
+    | some t, some kd, some i =>
+      let m : Bytes :=
+        if kd = 0 then [70, UInt8.ofNat (i / 256), UInt8.ofNat i] ++ (pattern (i % 251) (3 + (i * 7) % 90)).drop 3
+        else [76, UInt8.ofNat i] ++ (pattern (100 + i) (2 * L.chunk + 1 + i * 17)).drop 2
+      if st.c.s.dead then (st, "refused")
+      else ({ st with c := st.c.step L (.send t m) }, "ok " ++ toString (packetsOf L t m).length)
+    | _, _, _ => (st, "bad-op")
+  | ["send-foreign", _t, _len] =>
+    -- the relay saw a message complete on the wire that no sender handed to the connection: the model
+    -- (all packets of a message enqueued contiguously) has no history that produces it
+    (st, "impossible")
+  | ["wire-n", t, n] =>
+    match nat? t, nat? n with
+    | some t, some n =>
+      let before := st.c.s.wire.length
+      let c' := (List.range n).foldl (fun c _ => c.step L (.pick t)) st.c
+      let newPkts := c'.s.wire.drop before
+      if newPkts.length != n then ({ st with c := c' }, "wire-impossible " ++ toString newPkts.length)
+      else ({ st with c := c' }, "wire " ++ toString newPkts.length ++ " " ++ toString (newPkts.foldl pktHash 14695981039346656037).toNat)
+    | _, _ => (st, "bad-op")
+  | ["deliver-all-draining", t] =>
+    -- the network hands over every wire packet while the application keeps emptying topic t's inbox
+    match nat? t with
+    | some t =>
+      let n := st.c.s.wire.length - st.c.rcvd
+      let c' := (List.range n).foldl (fun c _ => (c.step L .deliver).step L (.drain t)) st.c
+      ({ st with c := c' }, closeName c'.r.closed)
+    | none => (st, "bad-op")
+  | ["inbox-hash", t] =>
+    match nat? t with
+    | some t =>
+      let log := st.c.r.log.get t
+      let new := log.drop (seenGet st.seen t)
+      let h := new.foldl (fun h m => fnvMix (fnvMix h m.length.toUInt64) (fnv m)) 14695981039346656037
+      ({ c := st.c.step L (.drain t), seen := seenSet st.seen t log.length }, toString new.length ++ " " ++ toString h.toNat)
+    | none => (st, "bad-op")
   | ["send-partial", t, seed, len, k] =>
     match nat? t, nat? seed, nat? len, nat? k with
     | some t, some s, some l, some k => ({ st with c := st.c.step L (.sendPartial t (pattern s l) k) }, "fail " ++ toString k)
